@@ -1,6 +1,6 @@
 """What is claimed, per property. A property appears in CLAIMS only once its checker exists and
 passes on the unchanged tree."""
-FIX_COMMITS = ["4e9e139", "5ee6583", "744f482", "eb93a13", "ceb972a", "a924d81", "2127bcd", "d45c8ce", "840f793", "c6f0e0e", "026690a"]
+FIX_COMMITS = ["4e9e139", "5ee6583", "744f482", "eb93a13", "ceb972a", "a924d81", "2127bcd", "d45c8ce", "840f793", "c6f0e0e", "026690a", "cee72dd"]
 
 CLAIMS = {
     "C09": dict(
@@ -129,6 +129,15 @@ CLAIMS = {
         ref="DESIGN.md §3 C07",
         note="two known findings (variable operand sampled; two variables of one class conflated)",
         technique="static analysis: exhaustive class-hierarchy x dispatch-table check, def-use of the leaf variable over the call closure",
+    ),
+    "C11": dict(
+        text="Decides the per-attribute expansion of patterns exhaustively over its four boolean inputs (condition table), the type-filter and "
+             "flatten rules of nested matches, the operand slots of contains/in_ down to the comparator's application, and that no "
+             "engine-side membership/equality test in the evaluation closure compares unwrapped user values (identity-based "
+             "de-duplication). Equivalence of whole patterns with explicit queries on arbitrary data is not decided.",
+        ref="DESIGN.md §3 C11",
+        note="trusts HashedValue's identity equality; the evaluation of the produced conditions is C01",
+        technique="static analysis: finite decision-table extraction (16 + 5 + 8 cells), taint lint over the evaluation closure with positive control",
     ),
 }
 
